@@ -11,7 +11,7 @@ From XcpProofs Require Import ConcBlockProofs ConcFileProofs ConcOutcomeProofs.
 From XcpModel Require Import Paths Walker.
 From XcpProofs Require Import WalkerProofs.
 From XcpModel Require Import Extracted.
-From XcpProofs Require Import ExtractedOk.
+From XcpProofs Require Import XLoops XConfig.
 From Coq Require Import Permutation.
 From XcpProofs Require Import PinnedSource.
 From XcpPins Require Import Pin_parblock_queue_file_range Pin_operations_drop.
@@ -152,3 +152,18 @@ Print Assumptions C06_src_pin_parblock_queue_file_range.
 Print Assumptions C06_src_pin_operations_drop.
 Print Assumptions C06_two_schedules_same_outcome.
 Print Assumptions C06_drivers_same_outcome.
+
+(* ---- further glue on this property's path, pinned token for token (an edit re-opens the obligation; the run then
+   looks for a failing input) ---- *)
+From XcpPins Require Import Pin_parblock_dispatch_worker Pin_parfile_copy_worker.
+Theorem C06_src_pin_parblock_dispatch_worker : pin_unchanged name_parblock_dispatch_worker.
+Proof. exact pin_parblock_dispatch_worker. Qed.
+Theorem C06_src_pin_parfile_copy_worker : pin_unchanged name_parfile_copy_worker.
+Proof. exact pin_parfile_copy_worker. Qed.
+(* the worker count both drivers start with is >= 1 whatever -w says (0 = one per CPU; a machine has >= 1): the
+   hypothesis `1 <= W` of the driver theorems, from the two translated definitions *)
+Theorem C06_src_workers_at_least_one : forall w ncpus, (1 <= ncpus)%N -> (1 <= x_num_workers (x_config_workers w ncpus) ncpus)%N.
+Proof. exact x_workers_at_least_one. Qed.
+Print Assumptions C06_src_workers_at_least_one.
+Print Assumptions C06_src_pin_parblock_dispatch_worker.
+Print Assumptions C06_src_pin_parfile_copy_worker.
